@@ -5,6 +5,7 @@
    diff oracle (the `similar` crate). *)
 From BW Require Import Select Run.
 From BWP Require Import TextFacts Select_proofs Diff_proofs C01_proofs.
+From BWP Require Import Patch_proofs.
 
 (* Every added (or edited = paired) line of any hunk yields a change at its
    new-file line number. *)
@@ -149,3 +150,22 @@ Theorem C01_affects_set_only : forall nm1 nm2 path bc,
   (forall x, In x nm1 <-> In x nm2) -> affects_block nm1 path bc = affects_block nm2 path bc.
 Proof. exact affects_block_set_ext. Qed.
 Print Assumptions C01_affects_set_only.
+
+(* A printed hunk header is read back exactly, whatever section heading follows the closing @@. *)
+Theorem C01_hunk_header_roundtrip : forall ss sl ts tl rest,
+  hunk_header (print_hunk_header ss sl ts tl ++ rest) = Some (ss, sl, ts, tl).
+Proof. exact hunk_header_print_any. Qed.
+Print Assumptions C01_hunk_header_roundtrip.
+
+(* A whole printed patch - any number of file sections and hunks whose counts match their headers and whose body lines do not look like headers - parses back to exactly the same sections, hunks and numbered lines: the accepted-diff half of C01 for every well-formed diff. *)
+Theorem C01_patch_roundtrip : forall fs,
+  Forall good_file fs -> Forall clean_file fs -> parse_patch (print_patch fs) = Ok fs.
+Proof. exact parse_patch_print_patch. Qed.
+Print Assumptions C01_patch_roundtrip.
+
+(* Body lines are never mistaken for headers by the outer loop. *)
+Theorem C01_body_lines_skipped : forall ds rest files cur src,
+  Forall no_lookalike ds ->
+  parse_lines (map print_dline ds ++ rest) files cur src = parse_lines rest files cur src.
+Proof. exact parse_lines_skip_body. Qed.
+Print Assumptions C01_body_lines_skipped.
